@@ -517,13 +517,21 @@ func (e *e2e) close() {
 }
 
 func TestPropEndToEndRouting(t *testing.T) {
-	sub := stats.NewSub("end-to-end-routing", "rapid: 2-3 real limiter servers (real request dispatcher + real limiter, scripted leadership) sharing N in [1,16] shards, the real gateway-side client set synced from one of them over HTTP; for 1-5 generated upstream names the gateway sends the allocate call where ClientFor says; oracle: the receiving server serves it (it leads the upstream's shard by its own computation) - a 'leader is' refusal means both sides disagree; non-trivial = N >= 2 and both servers lead a shard; distinct by FNV-64 of (N, assignment, names)")
+	sub := stats.NewSub("end-to-end-routing", "rapid: 2-3 real limiter servers (real request dispatcher + real limiter, scripted leadership) sharing N in [1,16] shards (one shard in six has no leader at the moment and no server lists it), the real gateway-side client set synced from one of them over HTTP; for 1-5 generated upstream names whose shard has a leader the gateway sends the allocate call where ClientFor says; oracle: the receiving server serves it (it leads the upstream's shard by its own computation) - a 'leader is' refusal means both sides disagree; non-trivial = N >= 2 and both servers lead a shard; distinct by FNV-64 of (N, assignment, names)")
 	stats.Check(t, stats.N(400, 3000), func(t *rapid.T) {
 		nServers := rapid.IntRange(2, 3).Draw(t, "servers")
 		n := rapid.IntRange(1, 16).Draw(t, "N")
 		assign := make([]int, n)
 		owners := map[int]bool{}
+		leaderless := 0
 		for s := range assign {
+			// one shard in six has no leader at the moment (fail-over window, server just started): no server has an
+			// entry for it; upstreams of the OTHER shards must be routed as usual
+			if rapid.IntRange(0, 5).Draw(t, fmt.Sprintf("leaderless[%d]", s)) == 0 {
+				assign[s] = -1
+				leaderless++
+				continue
+			}
 			assign[s] = rapid.IntRange(0, nServers-1).Draw(t, fmt.Sprintf("owner[%d]", s))
 			owners[assign[s]] = true
 		}
@@ -548,9 +556,21 @@ func TestPropEndToEndRouting(t *testing.T) {
 			sub.NonTrivial(stats.Hash(n, assign, names))
 		}
 		for _, name := range names {
+			if assign[refShard(name, n)] < 0 {
+				// nobody leads this upstream's shard: the gateway cannot be served (it falls back to its local limits)
+				if client, err := cs.ClientFor(name); err == nil && client != nil {
+					sub.Class("leaderless-shard-got-a-client")
+				} else {
+					sub.Class("leaderless-shard-has-no-client")
+				}
+				continue
+			}
 			client, err := cs.ClientFor(name)
 			if err != nil {
-				t.Fatalf("ClientFor(%q): %v", name, err)
+				t.Fatalf("ClientFor(%q) (shard %d of %d, led by server %d; %d other shard(s) have no leader): %v", name, refShard(name, n), n, assign[refShard(name, n)], leaderless, err)
+			}
+			if leaderless > 0 {
+				sub.Class("served-while-another-shard-has-no-leader")
 			}
 			cond := &proxyv1alpha1.RateLimitCondition{ObjectMeta: metav1.ObjectMeta{Name: limbox.ConditionName(name, cs.ClientID())}}
 			cond.Spec.UpstreamCluster = name
